@@ -113,6 +113,11 @@ func (l *Linter) lintDeclareStatement(stmt *ast.DeclareStatement, ctx *context.C
 		l.Error(err.Match(DECLARE_STATEMENT_DUPLICATED))
 	}
 
+	// Check ignored UNUSED_VARIABLE rule and mark as used
+	if l.ignore.IsEnable(UNUSED_VARIABLE) {
+		ctx.Get(stmt.Name.Value) // nolint:errcheck
+	}
+
 	// Lint the value expression if present
 	if stmt.Value != nil {
 		// For BOOL type, Fastly only accepts simple forms:
